@@ -799,7 +799,7 @@ class Evaluator:
                 return v
             if is_const(v) and (self.fold or _exact_in(v[1], tot)):
                 return v   # value-preserving conversion of an exactly representable constant
-            return ("cast", tot, v)
+            return ("cast", tot, v, frm)
         if ck == "IntegralToFloating":
             if isinstance(v, int):
                 return C(v)
